@@ -61,6 +61,29 @@ impl<T: ?Sized> Mutex<T> {
         }
     }
 
+    /// Non-blocking attempt; a scheduling point like `lock`.
+    pub fn try_lock(&self) -> Option<MutexGuard<'_, T>> {
+        verif_rt::note("lock");
+        match self.inner.try_lock() {
+            Ok(g) => Some(MutexGuard {
+                mutex: self,
+                inner: Some(g),
+            }),
+            Err(std::sync::TryLockError::Poisoned(p)) => Some(MutexGuard {
+                mutex: self,
+                inner: Some(p.into_inner()),
+            }),
+            Err(std::sync::TryLockError::WouldBlock) => None,
+        }
+    }
+
+    pub fn is_locked(&self) -> bool {
+        match self.inner.try_lock() {
+            Ok(_) | Err(std::sync::TryLockError::Poisoned(_)) => false,
+            Err(std::sync::TryLockError::WouldBlock) => true,
+        }
+    }
+
     pub fn get_mut(&mut self) -> &mut T {
         match self.inner.get_mut() {
             Ok(v) => v,
@@ -183,6 +206,28 @@ impl Condvar {
         guard.inner = Some(g);
     }
 
+    /// Timed wait. Time does not pass under the controlled runtime: the wait behaves like an
+    /// untimed wait that is always notified (never reports a timeout), so a caller that relies
+    /// on the timeout to make progress shows up as a deadlock.
+    pub fn wait_for<T>(&self, guard: &mut MutexGuard<'_, T>, _timeout: std::time::Duration) -> WaitTimeoutResult {
+        self.wait(guard);
+        WaitTimeoutResult(false)
+    }
+
+    pub fn wait_until<T>(&self, guard: &mut MutexGuard<'_, T>, _deadline: std::time::Instant) -> WaitTimeoutResult {
+        self.wait(guard);
+        WaitTimeoutResult(false)
+    }
+
+    pub fn wait_while<T, F>(&self, guard: &mut MutexGuard<'_, T>, mut condition: F)
+    where
+        F: FnMut(&mut T) -> bool,
+    {
+        while condition(&mut **guard) {
+            self.wait(guard);
+        }
+    }
+
     pub fn notify_one(&self) -> bool {
         verif_rt::note("cv.notify");
         self.inner.notify_one();
@@ -193,6 +238,16 @@ impl Condvar {
         verif_rt::note("cv.notify");
         self.inner.notify_all();
         0
+    }
+}
+
+/// Result of a timed wait (never a timeout under the controlled runtime).
+#[derive(Clone, Copy, Debug, PartialEq, Eq)]
+pub struct WaitTimeoutResult(bool);
+
+impl WaitTimeoutResult {
+    pub fn timed_out(&self) -> bool {
+        self.0
     }
 }
 
@@ -368,6 +423,27 @@ impl<T: ?Sized> RwLock<T> {
         RwLockWriteGuard { lock: self }
     }
 
+    pub fn try_read(&self) -> Option<RwLockReadGuard<'_, T>> {
+        if self.raw.try_shared() {
+            Some(RwLockReadGuard { lock: self })
+        } else {
+            None
+        }
+    }
+
+    pub fn try_write(&self) -> Option<RwLockWriteGuard<'_, T>> {
+        if self.raw.try_exclusive() {
+            Some(RwLockWriteGuard { lock: self })
+        } else {
+            None
+        }
+    }
+
+    pub fn is_locked(&self) -> bool {
+        let st = self.raw.st();
+        st.0 > 0 || st.1
+    }
+
     pub fn get_mut(&mut self) -> &mut T {
         self.data.get_mut()
     }
@@ -427,6 +503,22 @@ pub struct RwLockWriteGuard<'a, T: ?Sized> {
 }
 
 unsafe impl<T: ?Sized + Sync> Sync for RwLockWriteGuard<'_, T> {}
+
+impl<'a, T: ?Sized> RwLockWriteGuard<'a, T> {
+    /// Atomically turn the exclusive lock into a shared one.
+    pub fn downgrade(s: Self) -> RwLockReadGuard<'a, T> {
+        let lock = s.lock;
+        std::mem::forget(s);
+        let waiters = {
+            let mut st = lock.raw.st();
+            st.1 = false;
+            st.0 += 1;
+            st.2
+        };
+        lock.raw.wake(waiters);
+        RwLockReadGuard { lock }
+    }
+}
 
 impl<T: ?Sized> Deref for RwLockWriteGuard<'_, T> {
     type Target = T;
